@@ -383,9 +383,19 @@ func (p *parser) primary() *Expr {
 					break
 				}
 			}
+			var pats []*Expr
+			if p.accept("{") {
+				for {
+					pats = append(pats, p.expr())
+					if !p.accept(",") {
+						break
+					}
+				}
+				p.expect("}")
+			}
 			p.expect("::")
 			body := p.expr()
-			return &Expr{Op: t.s, Vars: vars, Args: []*Expr{body}}
+			return &Expr{Op: t.s, Vars: vars, Args: append([]*Expr{body}, pats...)}
 		}
 		return &Expr{Op: "id", Name: t.s}
 	case "op":
